@@ -10,6 +10,7 @@ All statements are for every endpoint / every interval / every input (no bounds,
 import EdzedModel.Interval
 import EdzedProofs.Interval
 import EdzedProofs.IntervalText
+import EdzedProofs.IntervalTables
 import EdzedModel.Gen.Constants
 
 namespace Edzed.Interval
@@ -214,6 +215,47 @@ theorem parse_asList_idempotent {k : Kind} {spec : IvIn} {iv : List Range}
     (h : parseInterval k spec = .ok iv) : parseInterval k (listInput (asList iv)) = .ok iv :=
   asList_roundtrip iv (normal_form_sorted_full h).1 (fun r hr => ((normal_form_sorted_full h).2 r hr).1)
 
+/-! ### the canonical string notation (what `as_string()` prints) parses back, for every endpoint -/
+
+/-- `HH:MM:SS[.ffffff]` (`str(dt.time)`) denotes the time it was rendered from -/
+theorem parse_render_time {e : Ep} (h : validTime e = true) : convertStr .time (renderTime e) = .ok e := by
+  simp only [convertStr, asciiOk_renderTime h, Bool.not_true, Bool.false_eq_true, ↓reduceIte, convertTimeStr,
+    strip_renderTime h, parse_render_time_core h]
+
+/-- `Mon D` (`date_to_string`) denotes the date it was rendered from – all 366 days -/
+theorem parse_render_date {e : Ep} (h : validDate e = true) : convertStr .date (renderDate e) = .ok e := by
+  obtain ⟨mo, d, rfl, -⟩ := validDate_shape h
+  have := (List.all_eq_true.1 (dateTable_all h)) (renderDate [mo, d]) (by simp [dateNotations, renderDate])
+  simpa using this
+
+/-- `YYYY-MM-DD HH:MM:SS[.ffffff]` (`str(dt.datetime)`) denotes the date-time it was rendered from,
+    for every year 1..9999 -/
+theorem parse_render_datetime {e : Ep} (h : validDateTime e = true) :
+    convertStr .datetime (renderDateTime e) = .ok e := by
+  simp only [convertStr, asciiOk_renderDateTime h, Bool.not_true, Bool.false_eq_true, ↓reduceIte,
+    convertDateTimeStr, strip_renderDateTime h, parse_render_datetime_core h]
+
+/-- every day of the leap year in thirteen documented notations (full / abbreviated / upper / lower
+    case month name, day first or last, with periods, without blank, with surrounding blanks,
+    `--MMDD`, `--MM-DD`) denotes that day -/
+theorem date_notations_agree {mo d : Nat} (h : validDate [mo, d] = true) :
+    ∀ s ∈ dateNotations mo d, convertStr .date s = .ok [mo, d] := by
+  intro s hs
+  simpa using (List.all_eq_true.1 (dateTable_all h)) s hs
+
+/-- every abbreviation of every month name to three or more letters (as written, lower case,
+    upper case) denotes that month -/
+theorem month_abbreviations_accepted : ∀ mo, mo < 13 → 1 ≤ mo → monthAbbrevOk mo = true :=
+  month_abbreviations_table
+
+/-- a month "name" of fewer than three letters is not recognised by `_RE_MONTH` -/
+theorem month_shorter_than_three_not_matched (s : List Char) (h : (s.takeWhile isAlpha).length < 3) :
+    reMonth s = none := by
+  simp only [reMonth]
+  split
+  · omega
+  · rfl
+
 /-! ### rejection of malformed input -/
 
 /-- no notation whatsoever – string or integers – yields an endpoint with an out-of-range field
@@ -283,6 +325,51 @@ theorem malformed_range_rejects_interval (k : Kind) (pre : List RangeIn) (x : Ra
         ih (fun q hq => hpre q (by simp [hq])), Res.bind_err]
   show (parseRanges k _).map sortR = _
   rw [this]; rfl
+
+/-! ### `TimeDate.parse`: weekday normalisation -/
+
+/-- weekday numbers outside 0..7 are a ValueError -/
+theorem weekday_out_of_range_rejected (l : List Int) (h : ∃ x ∈ l, x < 0 ∨ 7 < x) :
+    parseWeekdays (.ints l) = .err .value := by
+  obtain ⟨x, hx, hr⟩ := h
+  have : l.all (fun x => decide (0 ≤ x) && decide (x ≤ 7)) = false := by
+    rw [List.all_eq_false]
+    refine ⟨x, hx, ?_⟩
+    simp only [Bool.and_eq_true, decide_eq_true_eq]
+    omega
+  simp [parseWeekdays, weekdaysOfInts, this]
+
+/-- accepted weekdays are exported sorted, without duplicates, as 1..7 with Sunday (0 or 7) as 7 -/
+theorem weekdays_normal_form {l : List Int} {w : List Nat} (h : parseWeekdays (.ints l) = .ok w) :
+    w.Pairwise (· < ·) ∧
+    ∀ d, d ∈ w ↔ (1 ≤ d ∧ d ≤ 7 ∧ ((d : Int) ∈ l ∨ (d = 7 ∧ (0 : Int) ∈ l))) := by
+  simp only [parseWeekdays, weekdaysOfInts] at h
+  split at h
+  · next hall =>
+    cases h
+    constructor
+    · exact List.Pairwise.sublist List.filter_sublist (by decide)
+    · intro d
+      rw [List.all_eq_true] at hall
+      simp only [List.mem_filter, List.contains_eq_mem, List.mem_map, decide_eq_true_eq]
+      constructor
+      · rintro ⟨hd, x, hx, hxd⟩
+        have hr := hall x hx
+        simp only [Bool.and_eq_true, decide_eq_true_eq] at hr
+        have hd' : 1 ≤ d ∧ d ≤ 7 := by simp at hd; omega
+        refine ⟨hd'.1, hd'.2, ?_⟩
+        by_cases h0 : x = 0
+        · subst h0; simp at hxd; exact Or.inr ⟨hxd.symm, hx⟩
+        · simp only [h0, ↓reduceIte] at hxd
+          left
+          have : (d : Int) = x := by omega
+          rw [this]; exact hx
+      · rintro ⟨h1, h7, hm | ⟨rfl, hm⟩⟩
+        · refine ⟨by simp; omega, (d : Int), hm, ?_⟩
+          simp
+          omega
+        · exact ⟨by simp, 0, hm, by simp⟩
+  · cases h
 
 /-! ### tie to the source -/
 
